@@ -3,9 +3,11 @@ package props
 import (
 	"context"
 	"fmt"
+	"os"
 	"sync"
 
 	"github.com/jrhy/mast"
+	"github.com/jrhy/mast/persist/file"
 
 	"verif/internal/fw"
 	"verif/internal/kinds"
@@ -225,7 +227,18 @@ func c11Live(c *fw.C) {
 	per := r.Range(2, 4)
 	nops := r.Range(60, 160)
 	c.Desc("workload=live cfg{%s} groups=%d x %d ops=%d", cfg, groups, per, nops)
-	store := mast.NewInMemoryStore()
+	var store mast.Persist = mast.NewInMemoryStore()
+	if c.Idx%9 == 1 { // the real file backend: the trees' flushes write the same node files concurrently
+		scratch := os.Getenv("VERIF_SCRATCH")
+		if scratch == "" {
+			scratch = os.TempDir()
+		}
+		if dir, err := os.MkdirTemp(scratch, "c11-"); err == nil {
+			defer os.RemoveAll(dir)
+			store = file.NewPersistForPath(dir)
+			c.Obs("runs_live_on_file_backend", 1)
+		}
+	}
 	cache := mast.NewNodeCache(r.Range(8, 4000))
 	pool := cfg.KK.Pool(r, cfg.BF, r.Range(10, 50))
 	c.Obs("runs_live", 1)
